@@ -167,6 +167,30 @@ def run(P, rep, tier):
                    bad + ': narrower / unsigned arithmetic reorders some timestamp pairs (differences >= 2^31, negative pts)')
     rep.floor('C03.PTSWIDTH', 1)
 
+    # ---------------- PTSORDER: pts is an opaque application label ("all pts sequences"): the library may copy it, never order by
+    # it.  Any relational comparison whose two operands both read EbBufferHeaderType.pts decides an order from application
+    # values and relabels packets as soon as the sequence is not increasing.
+    PTSF = 'EbBufferHeaderType.pts'
+    npo = 0
+    for g in P.fns:
+        if g.lib != 'Encoder' or g.nocfg:
+            continue
+        seen_l = set()
+        for ev in g.events():
+            e = ev.get('e')
+            if e is None:
+                continue
+            for x in subexprs(e):
+                if x[0] == 'b' and x[1] in ('<', '>', '<=', '>=') and ev.get('l') not in seen_l:
+                    if any(y[0] == 'm' and y[1] == PTSF for y in subexprs(x[2])) and any(y[0] == 'm' and y[1] == PTSF for y in subexprs(x[3])):
+                        seen_l.add(ev.get('l'))
+                        npo += 1
+                        rep.ob('C03.PTSORDER', '%s/cmp' % g.name, False, g.loc(ev),
+                               '%s orders by comparing two application pts values (%s): with a pts sequence that is not increasing the packets keep their order but get the labels of other pictures' % (g.name, pstr(x)[:60]))
+    if not npo:
+        rep.ob('C03.PTSORDER', 'no-pts-comparison', True, 'Source/Lib/Encoder', 'no relational comparison between two pts values in the encoder library')
+    rep.floor('C03.PTSORDER', 1)
+
     # ---------------- EOS: the end-of-stream flag of the application's last picture arrives on exactly the last packet.  Chain of
     # necessary links, each a dependence visible in the code:
     #   input flags & EOS -> pcs.end_of_sequence_flag (resource coordination)
